@@ -106,6 +106,14 @@ def asis_roots(op, arg, recipes):  # noqa: C901, PLR0911, PLR0912
             return [arg.get("anyf"), arg.get("objf"), *(lst if isinstance(lst, list) else [])]
         return [arg.anyf, arg.objf, *arg.lst]
     collect = "nm_extra_collect" in recipes
+    if t == "WithExtra2":
+        if load:
+            if not isinstance(arg, dict):
+                return []
+            if collect:
+                return [v for k, v in arg.items() if k != "a"]
+            return [x for k in ("e1", "e2") if isinstance(arg.get(k), dict) for x in arg[k].values()]
+        return [*arg.e1.values(), *arg.e2.values()]
     if t == "WithExtra":
         # `extra: Dict[str, Any]`: its values are Any (as is) whether it is an ordinary field or the extra target
         if load:
